@@ -28,6 +28,13 @@ CHECKS = {
             "with the clock substituted, and long random histories over all versionable types are validated line by line by the trace spec.",
             "Trusted: clock substitution through stix2.versioning.get_timestamp; projection in harness/impl_versioning.py. Times relative to a base instant within 2^31 us.",
             "DESIGN.md §3.2"),
+    "C16": ("canonjson", "TLA+ transcription of RFC 8785 (UTF-16 key order, escapes, ES6 number layout) with a JSON reader; TLC exhaustive over small values; table replay + trace validation",
+            "TLC checks on spec/CanonJson.tla that canonical text is order-independent, whitespace-free, reads back to the same value and is a fixed point, over all small values "
+            "(keys where UTF-16 and code-point order disagree, every escape class, digit strings x exponents -10..25, nesting 2, NaN/inf refusal). RFC 8785 determines the output "
+            "completely, so conformance is equality: every TLC-computed text is compared with the implementation's, and random values/doubles are validated by the trace spec "
+            "(number layout from digits established by exact rational arithmetic).",
+            "Trusted: exact-rational shortest-digit check in the harness (fractions); floats with <=15 digits reconstruct exactly; well-formed Unicode only.",
+            "DESIGN.md §3.10"),
 }
 
 NOT_YET = {}
